@@ -43,6 +43,11 @@ var preIdents = []string{
 	"alpha1", "1a", "-", "z", "SNAPSHOT", "11", "9",
 }
 
+// nugetIdents: NuGet reads an all-digit identifier as a number only while it
+// fits 32 bits; longer digit strings (build timestamps) are text.
+var nugetIdents = []string{"0", "1", "2", "10", "alpha", "Alpha", "ALPHA", "beta", "rc", "RC", "a", "B", "rc1", "x-y", "2147483647", "2147483648", "01",
+	"202401010000", "20231231235959", "2023w52", "99999999999", "3000000000", "3a", "-", "9"}
+
 func ident(t *rapid.T, label string, leadingZero bool) string {
 	k := rapid.IntRange(0, 9).Draw(t, label+"k")
 	if k == 0 && leadingZero {
@@ -349,7 +354,7 @@ func NuGet() *rapid.Generator[string] {
 				if i > 0 {
 					b.WriteByte('.')
 				}
-				b.WriteString(rapid.SampledFrom([]string{"0", "1", "2", "10", "alpha", "Alpha", "ALPHA", "beta", "rc", "RC", "a", "B", "rc1", "x-y", "2147483647", "2147483648", "01"}).Draw(t, "pre"))
+				b.WriteString(rapid.SampledFrom(nugetIdents).Draw(t, "pre"))
 			}
 		}
 		if rapid.IntRange(0, 9).Draw(t, "hasbuild") < 2 {
@@ -471,6 +476,28 @@ func Neighbour(sys semver.System, base string) *rapid.Generator[string] {
 				}
 			}
 			return base
+		case 10: // replace the last prerelease identifier by another one
+			switch sys {
+			case semver.Maven, semver.PyPI, semver.RubyGems:
+				return base
+			}
+			i := strings.IndexByte(base, '-')
+			if i < 0 {
+				return base
+			}
+			end := len(base)
+			if j := strings.IndexByte(base, '+'); j > i {
+				end = j
+			}
+			start := i + 1
+			if j := strings.LastIndexByte(base[:end], '.'); j > i {
+				start = j + 1
+			}
+			pool := preIdents
+			if sys == semver.NuGet {
+				pool = nugetIdents
+			}
+			return base[:start] + rapid.SampledFrom(pool).Draw(t, "newident") + base[end:]
 		case 9: // replace a qualifier by an alias or a sibling of the same rank
 			var pairs [][2]string
 			switch sys {
@@ -548,6 +575,30 @@ func Triple(sys semver.System, g *rapid.Generator[string]) *rapid.Generator[[3]s
 		a := g.Draw(t, "a")
 		var out [3]string
 		out[0] = a
+		// One slot, three identifiers: the versions agree except for their last
+		// prerelease identifier (comparator laws are decided there).
+		switch sys {
+		case semver.Maven, semver.PyPI, semver.RubyGems:
+		default:
+			if i := strings.IndexByte(a, '-'); i > 0 && rapid.IntRange(0, 4).Draw(t, "slot") == 0 {
+				end := len(a)
+				if j := strings.IndexByte(a, '+'); j > i {
+					end = j
+				}
+				start := i + 1
+				if j := strings.LastIndexByte(a[:end], '.'); j > i {
+					start = j + 1
+				}
+				pool := preIdents
+				if sys == semver.NuGet {
+					pool = nugetIdents
+				}
+				for k := 1; k < 3; k++ {
+					out[k] = a[:start] + rapid.SampledFrom(pool).Draw(t, "slotident") + a[end:]
+				}
+				return out
+			}
+		}
 		for i := 1; i < 3; i++ {
 			if rapid.IntRange(0, 9).Draw(t, "near") < 6 {
 				base := out[rapid.IntRange(0, i-1).Draw(t, "from")]
